@@ -7,6 +7,8 @@ empty or non-empty body), handler behaviours (returns any status, panics, slow),
 every stage, body-decode outcomes and reply-write outcomes.
 -/
 import Teleport.Lemmas.Dispatch
+import Teleport.Lemmas.SrcFlow
+import Teleport.Gen.Stages
 namespace Teleport
 namespace C03
 open Dispatch
@@ -249,6 +251,55 @@ example : (handleFrame exCfg {} exFrame (.ret Status.zero { merr := [(106, [101]
 /-- `C03_other`'s hypotheses hold for type byte 4 (and the frame disconnects). -/
 example : (handleFrame exCfg {} { exFrame with mtype := 4 } (.panic [] false) {} (.sent, .sent)).closeRequested = true := by
   decide
+
+/-! ## tie A — where `handleCall` marks the reply as written (`Gen/Stages`)
+
+`Dispatch.handle` answers a handler panic from the deferred recover of `handleCall` only while nothing
+has been written (`writed` false); a panic AFTER the reply went out (in a `PostWriteReply` plugin) must
+not produce a second REPLY. In the code that is one assignment: `writed = true` between the
+successful `writeReply` and `postWriteReply`. `srcfacts` regenerates the flow of `handleCall`; the
+flag is found structurally (the boolean local that the deferred literal tests negated around its
+`writeReply`), not by name. -/
+
+section TieA
+open SrcFlow
+
+def hcFlow : List Ev := Gen.stages_handlerCtx_handleCall
+/-- the statements of `handleCall` itself, in order. -/
+def hcMain : List Ev := mainFlow hcFlow
+
+def isFirstWrite (e : Ev) : Bool := e.is "call" "writeReply" && e.use == "fail-return" && e.guards.isEmpty
+def isFlagSet (e : Ev) : Bool := e.is "flag" "set"
+
+/-- **The reply-written flag is set between the successful reply write and the post-write hooks
+    (tie A).** In `handleCall` as it is in the source now: (1) the first, unconditional `writeReply`
+    is tested at once and its failing branch returns; (2) the flag is assigned exactly once, the
+    value `true`, unconditionally, in the function body itself; (3) that assignment comes after the
+    first `writeReply` and before `postWriteReply`; between the two there is nothing but the retry
+    `writeReply` of the failing branch and its `return` — in particular no plugin stage and no handler
+    call runs after a successful write with the flag still false; (4) every `writeReply` of the
+    deferred recover is guarded by the negated flag. Hence a panic raised after the reply was written
+    (a `PostWriteReply` plugin) finds the flag set and writes nothing: at most one REPLY per CALL, as
+    `C03_at_most_once` states for the model. Moving the assignment behind `postWriteReply`, dropping
+    it, or dropping the guard in the recover changes the regenerated flow and this theorem no
+    longer checks. -/
+theorem C03_writed_before_postwrite :
+    Gen.stages_missing = [] ∧
+    (hcFlow.filter isFlagSet).map (fun e => (e.x, e.guards)) = [("true", [])] ∧
+    (hcMain.filter isFirstWrite).length = 1 ∧
+    ((after isFirstWrite hcMain).bind (upto isFlagSet)).map keys = some ["call:writeReply"] ∧
+    (((after isFirstWrite hcMain).bind (upto isFlagSet)).getD []).all (fun e => !e.guards.isEmpty) = true ∧
+    ((after isFlagSet hcMain).map keys) = some ["stage:postWriteReply"] ∧
+    ((upto isFirstWrite hcMain).map fun l => l.all fun e => !(e.is "stage" "postWriteReply")) = some true ∧
+    (hcFlow.filter fun e => e.deferred && e.is "call" "writeReply").length = 1 ∧
+    (hcFlow.all fun e => !(e.inClosure && e.is "call" "writeReply") || (e.deferred && e.guards.contains "!flag")) = true := by
+  decide
+
+/-- non-vacuity: the flow has the three landmarks. -/
+example : (keys hcMain).filter (fun k => k == "call:writeReply" || k == "flag:set" || k == "stage:postWriteReply") =
+    ["call:writeReply", "call:writeReply", "flag:set", "stage:postWriteReply"] := by decide
+
+end TieA
 
 end C03
 end Teleport
